@@ -203,8 +203,28 @@ impl ApiWin {
 }
 
 /// the real engine with two streams over the same window: A emits the content, B the aggregate
+/// `varpulis_parser::parse` spawns a thread with a large stack per call; parse each distinct program once
+pub fn parse_cached(src: &str) -> std::sync::Arc<varpulis_core::ast::Program> {
+    thread_local! { static CACHE: std::cell::RefCell<std::collections::HashMap<String, std::sync::Arc<varpulis_core::ast::Program>>> = std::cell::RefCell::new(std::collections::HashMap::new()); }
+    CACHE.with(|c| {
+        if let Some(p) = c.borrow().get(src) { return p.clone(); }
+        let prog = match varpulis_parser::parse(src) {
+            Ok(p) => std::sync::Arc::new(p),
+            Err(e) => { eprintln!("generator error: program does not parse: {e:?}\n{src}"); std::process::exit(3); }
+        };
+        c.borrow_mut().insert(src.to_string(), prog.clone());
+        prog
+    })
+}
+
+/// one tokio runtime for all engine calls of the run (building one per scenario dominates the run time)
+pub fn rt() -> &'static tokio::runtime::Runtime {
+    static RT: std::sync::OnceLock<tokio::runtime::Runtime> = std::sync::OnceLock::new();
+    RT.get_or_init(|| tokio::runtime::Builder::new_current_thread().enable_all().build().unwrap())
+}
+
 pub struct EngineRun {
-    pub rt: tokio::runtime::Runtime,
+    pub rt: &'static tokio::runtime::Runtime,
     pub engine: Engine,
     pub rx: mpsc::Receiver<Event>,
     pub part: bool,
@@ -220,17 +240,13 @@ pub fn program(kind: Kind, part: bool) -> String {
 
 impl EngineRun {
     pub fn new(src: &str, part: bool) -> EngineRun {
-        let prog = match varpulis_parser::parse(src) {
-            Ok(p) => p,
-            Err(e) => { eprintln!("generator error: program does not parse: {e:?}\n{src}"); std::process::exit(3); }
-        };
+        let prog = parse_cached(src);
         let (tx, rx) = mpsc::channel::<Event>(4096);
         let mut engine = Engine::new(tx);
         if let Err(e) = engine.load(&prog) { eprintln!("generator error: program does not load: {e}\n{src}"); std::process::exit(3); }
         engine.enable_watermark_tracking();
         engine.register_watermark_source("ext", Duration::zero());
-        let rt = tokio::runtime::Builder::new_current_thread().enable_all().build().unwrap();
-        EngineRun { rt, engine, rx, part, keys: BTreeMap::new() }
+        EngineRun { rt: rt(), engine, rx, part, keys: BTreeMap::new() }
     }
 
     fn drain(&mut self) -> String {
@@ -474,7 +490,7 @@ fn c12(ctx: &mut Ctx) {
         run_engine(ctx, Kind::Count(n), false, &ops);
     }
     // random scenarios
-    let (napi, neng) = if ctx.thorough { (6000, 1200) } else { (500, 90) };
+    let (napi, neng) = if ctx.thorough { (20000, 6000) } else { (1500, 400) };
     for i in 0..napi {
         let mut rng = Rng(ctx.rng.next());
         let p = rng.range(1, 5);
@@ -529,7 +545,7 @@ fn c13(ctx: &mut Ctx) {
         }
     }
     // in-order streams with watermarks and partitions, up to 10+ events, both APIs
-    let (napi, neng) = if ctx.thorough { (6000, 1200) } else { (400, 80) };
+    let (napi, neng) = if ctx.thorough { (20000, 6000) } else { (1000, 300) };
     for _ in 0..napi {
         let mut rng = Rng(ctx.rng.next());
         let kind = Kind::Sliding(rng.range(1, 5), rng.range(1, 5));
